@@ -255,6 +255,9 @@ func (c *c13) runHistory(ctx *RunCtx) *RunResult {
 	var budget uint64 = 100000
 	for i := range items {
 		items[i] = t.Draw(len(c.pool))
+		if c.refs[items[i]].Steps > 300000 && t.Draw(20) != 1 {
+			items[i] = t.Draw(30) // an ordinary item instead of a very expensive one
+		}
 		d.Sources = append(d.Sources, trunc(c.pool[items[i]].Src, 120))
 		budget += 200 * c.refs[items[i]].Steps
 		if refAborted(c.refs[items[i]]) {
@@ -552,6 +555,13 @@ func (c *c13) runSession(ctx *RunCtx) *RunResult {
 			res.Violations = append(res.Violations, Violation{oracle, key, detail})
 		}
 	}
+	// now and then a wide session: more commands than any internal worker pool has lanes,
+	// on a text beyond 64 KiB whose interesting part starts right at that boundary
+	wideOdds := 10000
+	if c.env.Tier == "thorough" {
+		wideOdds = 3000
+	}
+	wide := t.Draw(wideOdds) == 1
 	ndefs := t.Range(1, 3)
 	var defs []sessDef
 	orBody := map[string]bool{}
@@ -567,7 +577,7 @@ func (c *c13) runSession(ctx *RunCtx) *RunResult {
 		}
 		return b
 	}
-	addDef := func(name string) {
+	addDef := func(name string, force string) {
 		used := map[string]bool{}
 		hasOr := false
 		// a body may only refer to names that are bound at this point (other than its own)
@@ -578,6 +588,10 @@ func (c *c13) runSession(ctx *RunCtx) *RunResult {
 			}
 		}
 		body := genBody(t, 2, visible, used, &hasOr)
+		if force != "" {
+			body = force
+			used = map[string]bool{}
+		}
 		d := sessDef{Name: name, Body: body}
 		for n := range used {
 			d.Refs = append(d.Refs, n)
@@ -595,12 +609,16 @@ func (c *c13) runSession(ctx *RunCtx) *RunResult {
 		defs = append(defs, d)
 	}
 	for i := 0; i < ndefs; i++ {
-		addDef(fmt.Sprintf("p%d", i+1))
+		force := ""
+		if wide && i == 0 && t.Draw(2) == 1 {
+			force = []string{"'ab'", "'ba'", "'ab' 'c'"}[t.Draw(3)] // a definition that starts with a plain literal
+		}
+		addDef(fmt.Sprintf("p%d", i+1), force)
 	}
 	// now and then an earlier name is bound again after other definitions used it:
 	// they keep the body they were made with, later references see the new one
 	if ndefs >= 2 && t.Draw(6) == 1 {
-		addDef(fmt.Sprintf("p%d", 1+t.Draw(ndefs-1)))
+		addDef(fmt.Sprintf("p%d", 1+t.Draw(ndefs-1)), "")
 		redefined = true
 		ctx.Count("sess_name_redefined", 1)
 	}
@@ -631,13 +649,6 @@ func (c *c13) runSession(ctx *RunCtx) *RunResult {
 		return sb.String()
 	}
 	ncmds := t.Range(1, 3)
-	// now and then a wide session: more commands than any internal worker pool has lanes,
-	// on a text beyond 64 KiB whose interesting part starts right at that boundary
-	wideOdds := 6000
-	if c.env.Tier == "thorough" {
-		wideOdds = 2000
-	}
-	wide := t.Draw(wideOdds) == 1
 	if wide {
 		ncmds = t.Range(9, 12)
 		ctx.Count("sess_wide_many_commands_64k_text", 1)
@@ -647,6 +658,9 @@ func (c *c13) runSession(ctx *RunCtx) *RunResult {
 	refCmds := map[string]map[int]bool{}
 	for j := 0; j < ncmds; j++ {
 		cm := genCmd(t, defs, ctx)
+		if wide && j == 0 {
+			cm = sessCmd{Tmpl: "find all %R0 maybe digit", Refs: []string{"p1"}}
+		}
 		cmds = append(cmds, cm)
 		per := map[string]int{}
 		for _, n := range cm.Refs {
@@ -682,8 +696,8 @@ func (c *c13) runSession(ctx *RunCtx) *RunResult {
 	}
 	text := string(tb)
 	if wide {
-		// 'z' occurs in no literal of the generator: nothing can match before the boundary
-		text = strings.Repeat("z", 65536-t.Range(0, 3)) + text + "ab ab1"
+		// '#' occurs in no literal or class of the generator except `any`
+		text = strings.Repeat("#", 65536-t.Range(0, 3)) + "abab1 bac ab" + text + "ab ab1"
 	}
 	randSeed := int64(t.Draw(1 << 30))
 	mapSeed := uint64(t.Draw(1 << 30))
@@ -727,7 +741,7 @@ func (c *c13) runSession(ctx *RunCtx) *RunResult {
 	simrt.Solo()
 	budget := uint64(400000)
 	if wide {
-		budget = 400000 + 400*uint64(len(text))*uint64(ncmds)
+		budget = 40000000 // readings that need more are discarded
 	}
 	eval := func(src string) Outcome {
 		rand.Seed(randSeed)
